@@ -1,10 +1,345 @@
 import Driver.Common
-/-! Judge for C15: not built yet (stub so that the target exists). -/
-open Lean Driver
+import EgVerif.Spec.Delivery
+/-!
+Judges for C15.
+
+`inproc`: case `{"clients":[{"id","subs":[{"f","q"}],"ghost"}], "events":[…]}` (see the harness
+`zz_verif_c15_inproc_test.go`); observation per event: HTTP status and, per client, the PUBLISH packets
+`"id:qos:payload"` queued to it. The model is deterministic here (the visiting order of the subscriber map
+does not influence *what* a client gets), so `agree` is equality of the per-client packet lists and of the
+HTTP status. `spec` is evaluated on the observation alone: eligibility from the abstract subscription set
+(`Delivery.eligible`), QoS0 drop only when full, a tick re-sends exactly the oldest packet *observed* as
+unacknowledged, never an acknowledged one, pending ids distinct.
+
+`wire`: real broker on loopback, raw packet clients, real 200 ms ticker: timing is not deterministic, the
+judge checks inequalities only (see the harness `zz_verif_c15_wire_test.go`).
+-/
+open Lean EgVerif.Topic EgVerif.Delivery EgVerif.SessionQueue
 
 namespace Driver.C15
 
-def judges : List (String × Judge) := []
+structure JClient where
+  id : String
+  subs : List (String × Nat)
+  ghost : Bool
+
+def parseClient (j : Json) : Except String JClient := do
+  let id := optStr j "id"
+  let subsJ ← getArr j "subs"
+  let subs := subsJ.toList.map fun s => (optStr s "f", (optInt s "q").toNat)
+  pure ⟨id, subs, optBool j "ghost"⟩
+
+/-- "3:1:p7" -/
+def parsePkt (s : String) : Packet :=
+  match s.splitOn ":" with
+  | i :: q :: rest => ⟨i.toNat!, q.toNat!, "", ":".intercalate rest⟩
+  | _ => ⟨99999, 99, "", s⟩
+
+def getOut (step : Json) (c : String) : List Packet :=
+  match step.getObjVal? "out" with
+  | .ok o => ((getStrList o c).toOption.getD []).map parsePkt
+  | .error _ => []
+
+def showPkts (l : List Packet) : String := ",".intercalate (l.map fun p => s!"{p.id}:{p.qos}:{p.payload}")
+
+structure Acc where
+  agree : Bool := true
+  spec : Bool := true
+  sig : String := ""
+  note : String := ""
+  tags : List String := []
+
+def Acc.fail (a : Acc) (sig note : String) : Acc :=
+  if a.spec then { a with spec := false, sig := sig, note := note } else a
+def Acc.dis (a : Acc) (note : String) : Acc :=
+  if a.agree then { a with agree := false, note := if a.note.isEmpty then note else a.note } else a
+def Acc.tag (a : Acc) (t : String) : Acc := if a.tags.contains t then a else { a with tags := t :: a.tags }
+
+def lookupD {β : Type} (k : String) (l : List (String × β)) (d : β) : β := (alGet k l).getD d
+
+def inproc : Judge := liftJudge fun input obs => do
+  match obsPanic obs with
+  | some m => pure { agree := false, spec := false, sig := "panic", note := m }
+  | none =>
+  let clientsJ ← getArr input "clients"
+  let clients0 ← clientsJ.toList.mapM parseClient
+  -- the harness ignores empty ids and repeated ids of connected clients
+  let mut clients : List JClient := []
+  for c in clients0 do
+    if c.id.isEmpty then continue
+    if !c.ghost && clients.any (fun d => d.id == c.id && !d.ghost) then continue
+    clients := clients ++ [c]
+  let events ← getArr input "events"
+  let steps ← getArr obs "steps"
+  if steps.size != events.size then
+    return { agree := false, spec := true, note := s!"{steps.size} steps for {events.size} events" }
+  -- subscription state through the C14 model / spec
+  let ops : List Op := (clients.filter (fun c => !c.subs.isEmpty)).map fun c =>
+    .subscribe c.id (c.subs.map fun s => (s.1.toList, s.2))
+  let trie := (EgVerif.Topic.run State.init ops).trie
+  let subs := specRun [] ops
+  let real := (clients.filter (fun c => !c.ghost)).map (·.id)
+  let mut online : List String := real
+  let mut sess : List (String × Sess) := real.map (fun c => (c, Sess.init))
+  let mut unackObs : List (String × List (Nat × String)) := real.map (fun c => (c, []))
+  let mut acc : Acc := {}
+  let mut expected : Array Json := #[]
+  let mut nontriv := false
+  let mut i := 0
+  for ev in events.toList do
+    let so := steps[i]!
+    i := i + 1
+    let k := optStr ev "k"
+    let mut expOut : List (String × List Packet) := []
+    let mut expStatus : Int := 0
+    if optStr so "note" != "" then acc := acc.dis s!"event {i-1}: harness note {optStr so "note"}"
+    if k == "m" then
+      let via := optStr ev "via"
+      let topic := optStr ev "topic"
+      let qosI := optInt ev "qos"
+      let bad := optStr ev "bad"
+      let b64 := optBool ev "b64"
+      let payload := if b64 then optStr ev "dec" else optStr ev "payload"
+      let fullL := (getStrList ev "full").toOption.getD []
+      let req : HttpReq := ⟨if bad == "method" then "GET" else "POST", bad != "json", qosI, b64,
+        optBool ev "b64ok"⟩
+      let valid := if via == "h" then httpAccepts req else true
+      if via == "h" then
+        expStatus := if valid then 200 else 400
+        acc := acc.tag (if valid then "http:ok" else s!"http:400")
+        let st := optInt so "st"
+        if st != expStatus then acc := acc.dis s!"event {i-1}: status {st}, model {expStatus}"
+        if valid && st != 200 then acc := acc.fail "http:rejected-good" s!"event {i-1}: status {st}"
+        if !valid && st == 200 then acc := acc.fail "http:accepted-bad" s!"event {i-1}: status {st}"
+      else acc := acc.tag "via:direct"
+      let q := qosI.toNat
+      let fullOn := qosI == 0 && bad == ""
+      let lvO := split topic.toList
+      if lvO.isNone then acc := acc.tag "topic:malformed"
+      let hits := match lvO with | some lv => find trie lv | none => []
+      let m := collapseMax hits
+      let conn : Client → Bool := fun c => online.contains c
+      let delivered := if valid then send conn q m else []
+      acc := acc.tag s!"msg-qos={qosI}"
+      if m.any (fun p => p.2 < q) && m.any (fun p => p.2 ≥ q) then acc := acc.tag "mixed-subscriber-qos"
+      if (hits.map (·.1)).eraseDups.length < hits.length then acc := acc.tag "overlapping-own-filters"
+      if m.any (fun p => !conn p.1) then acc := acc.tag "subscriber-offline"
+      if delivered.length ≥ 2 then nontriv := true
+      for c in real do
+        let got := getOut so c
+        -- model
+        let s := lookupD c sess Sess.init
+        let full := fullOn && fullL.contains c
+        let (s', want) := if delivered.contains c then publish true full ⟨topic, payload, q⟩ s else (s, [])
+        sess := alSet c s' sess
+        let want' := want.map fun p => { p with topic := "" }
+        if !want'.isEmpty then expOut := expOut ++ [(c, want')]
+        if got != want' then acc := acc.dis s!"event {i-1} client {c}: got [{showPkts got}], model [{showPkts want'}]"
+        -- spec on the observation
+        let el := valid && (match lvO with | some lv => eligible subs conn lv q c | none => false)
+        if full then acc := acc.tag "qos0-queue-full"
+        let good := got.filter (fun p => p.payload == payload && p.qos == q)
+        if got.length > 1 then acc := acc.fail "fanout:duplicate" s!"event {i-1} client {c}: [{showPkts got}]"
+        else if !el && !got.isEmpty then
+          acc := acc.fail "fanout:ineligible-served" s!"event {i-1} client {c}: [{showPkts got}]"
+        else if el && got.length == 1 && good.isEmpty then
+          acc := acc.fail "fanout:wrong-packet" s!"event {i-1} client {c}: [{showPkts got}]"
+        else if el && got.isEmpty && !(q == 0 && full) then
+          let ownLower := subs.any (fun e => e.2.1 == c && (match lvO with | some lv => «matches» e.1 lv | none => false) && e.2.2 < q)
+          let otherLower := hits.any (fun p => p.1 != c && p.2 < q)
+          let sig := if q == 0 then "qos0:dropped-not-full"
+            else if ownLower then "fanout:eligible-missed:own-lower-qos-overlap"
+            else if otherLower then "fanout:eligible-missed:lower-qos-subscriber-present"
+            else "fanout:eligible-missed"
+          acc := acc.fail sig s!"event {i-1} client {c} topic {topic} qos {q}: nothing delivered"
+        else if el && q == 0 && full && !got.isEmpty then
+          acc := acc.fail "qos0:delivered-into-full-queue" s!"event {i-1} client {c}"
+        -- bookkeeping of observed unacked QoS1 packets
+        for p in got do
+          if p.qos == 1 then
+            let u := lookupD c unackObs []
+            if u.any (fun e => e.1 == p.id) then
+              acc := acc.fail "ids:pending-collision" s!"event {i-1} client {c}: id {p.id} still pending"
+            unackObs := alSet c (u ++ [(p.id, p.payload)]) unackObs
+    else if k == "a" then
+      let c := optStr ev "c"
+      let id := (optInt ev "id").toNat
+      if real.contains c then
+        acc := acc.tag "puback"
+        let s := lookupD c sess Sess.init
+        if (alGet id s.pending).isNone then acc := acc.tag "puback-bogus-id"
+        sess := alSet c (puback id s) sess
+        unackObs := alSet c ((lookupD c unackObs []).filter (fun e => e.1 != id)) unackObs
+    else if k == "t" then
+      let c := optStr ev "c"
+      if real.contains c then
+        let s := lookupD c sess Sess.init
+        let on := online.contains c
+        let (s', want) := doResend on s
+        sess := alSet c s' sess
+        let want' := want.map fun p => { p with topic := "" }
+        if !want'.isEmpty then expOut := expOut ++ [(c, want')]
+        let got := getOut so c
+        if got != want' then acc := acc.dis s!"event {i-1} tick {c}: got [{showPkts got}], model [{showPkts want'}]"
+        let u := lookupD c unackObs []
+        acc := acc.tag (if u.isEmpty then "tick:nothing-pending" else if u.length > 1 then "tick:several-pending" else "tick:one-pending")
+        if !on then acc := acc.tag "tick:offline"
+        match u, on with
+        | (id, pl) :: _, true =>
+          if got.isEmpty then acc := acc.fail "resend:missing" s!"event {i-1} client {c}: oldest unacked {id} not re-sent"
+          else if got.length > 1 then acc := acc.fail "resend:more-than-oldest" s!"event {i-1} client {c}: [{showPkts got}]"
+          else if got.any (fun p => p.id != id || p.payload != pl || p.qos != 1) then
+            let acked := got.any (fun p => !(u.any (fun e => e.1 == p.id)))
+            acc := acc.fail (if acked then "resend:after-ack" else "resend:not-oldest")
+              s!"event {i-1} client {c}: [{showPkts got}], oldest unacked {id}:{pl}"
+          else nontriv := true
+        | _, _ =>
+          if !got.isEmpty then acc := acc.fail "resend:after-ack" s!"event {i-1} client {c}: [{showPkts got}] but nothing pending / offline"
+    else if k == "off" then
+      online := online.filter (· != optStr ev "c"); acc := acc.tag "client-offline"
+    else if k == "on" then
+      let c := optStr ev "c"
+      if real.contains c && !online.contains c then online := online ++ [c]
+    -- packets for clients that should get none at this event (ack / off / on, or other clients at a tick)
+    if k != "m" then
+      for c in real do
+        if !(k == "t" && c == optStr ev "c") && !(getOut so c).isEmpty then
+          acc := acc.dis s!"event {i-1}: unexpected packets for {c}"
+          acc := acc.fail "unexpected-packet" s!"event {i-1} ({k}): client {c} got [{showPkts (getOut so c)}]"
+    expected := expected.push (Json.mkObj [("st", Json.num expStatus),
+      ("out", Json.mkObj (expOut.map fun (c, ps) => (c, Json.arr (ps.map fun p => Json.str s!"{p.id}:{p.qos}:{p.payload}").toArray)))])
+  pure { agree := acc.agree, spec := acc.spec, expected := Json.mkObj [("steps", Json.arr expected)],
+         tags := acc.tags ++ [s!"clients={real.length}"], nontrivial := nontriv, sig := acc.sig, note := acc.note }
+
+/-! ### wire judge -/
+
+def countId (l : List Packet) (i : Nat) : Nat := (l.filter (fun p => p.id == i)).length
+
+/-- index of the `k`-th (1-based) copy of id `i` in the arrival order -/
+def idxOfCopy (l : List Packet) (i k : Nat) : Option Nat :=
+  let rec go (l : List Packet) (pos seen : Nat) : Option Nat :=
+    match l with
+    | [] => none
+    | p :: r => if p.id == i then (if seen + 1 == k then some pos else go r (pos + 1) (seen + 1)) else go r (pos + 1) seen
+  go l 0 0
+
+def wire : Judge := liftJudge fun input obs => do
+  match obsPanic obs with
+  | some m => pure { agree := false, spec := false, sig := "panic", note := m }
+  | none =>
+  if optStr obs "err" != "" then
+    return { agree := false, spec := true, note := "harness: " ++ optStr obs "err", nontrivial := false }
+  let clientsJ ← getArr input "clients"
+  let mut clients : List (String × List (String × Nat) × String) := []
+  for j in clientsJ.toList do
+    let id := optStr j "id"
+    if id.isEmpty || clients.any (fun c => c.1 == id) then continue
+    let subsJ ← getArr j "subs"
+    clients := clients ++ [(id, subsJ.toList.map (fun s => (optStr s "f", (optInt s "q").toNat)), optStr j "ack")]
+  let msgs ← getArr input "msgs"
+  let inbound ← getArr input "inbound"
+  let limit := (optInt input "limit").toNat
+  let window := let w := (optInt input "window_ms").toNat; if w == 0 then 700 else w
+  let ops : List Op := (clients.filter (fun c => !c.2.1.isEmpty)).map fun c =>
+    .subscribe c.1 (c.2.1.map fun s => (s.1.toList, s.2))
+  let subs := specRun [] ops
+  let conn : Client → Bool := fun c => clients.any (fun d => d.1 == c)
+  let rxO := (obs.getObjVal? "rx").toOption.getD Json.null
+  let paO := (obs.getObjVal? "pubacks").toOption.getD Json.null
+  let mut acc : Acc := {}
+  let mut nontriv := false
+  -- HTTP: every injection is valid
+  let http := (getIntList obs "http").toOption.getD []
+  if http.length != msgs.size || http.any (· != 200) then
+    acc := acc.fail "http:rejected-good" s!"http statuses {http}"
+  for (cid, _, ackMode) in clients do
+    let rx := ((getStrList rxO cid).toOption.getD []).map parsePkt
+    acc := acc.tag s!"ack={ackMode}"
+    -- delivery: payloads of the messages this client is eligible for, each at least once, nothing else
+    for mj in msgs.toList do
+      let topic := optStr mj "topic"; let q := (optInt mj "qos").toNat; let pl := optStr mj "payload"
+      let el := match split topic.toList with | some lv => eligible subs conn lv q cid | none => false
+      let copies := rx.filter (fun p => p.payload == pl)
+      if el && copies.isEmpty then
+        let otherLower := subs.any (fun e => e.2.1 != cid && (match split topic.toList with | some lv => «matches» e.1 lv | none => false) && e.2.2 < q)
+        let ownLower := subs.any (fun e => e.2.1 == cid && (match split topic.toList with | some lv => «matches» e.1 lv | none => false) && e.2.2 < q)
+        acc := acc.fail (if ownLower then "wire:eligible-missed:own-lower-qos-overlap"
+            else if otherLower then "wire:eligible-missed:lower-qos-subscriber-present" else "wire:eligible-missed")
+          s!"client {cid}: message {pl} (topic {topic}, qos {q}) never arrived"
+      if !el && !copies.isEmpty then acc := acc.fail "wire:ineligible-served" s!"client {cid}: got {pl}"
+      if copies.any (fun p => p.qos != q) then acc := acc.fail "wire:wrong-qos" s!"client {cid}: {pl}"
+      if el then acc := acc.tag s!"delivered-qos={q}"
+    if rx.any (fun p => !(msgs.toList.any (fun mj => optStr mj "payload" == p.payload))) then
+      acc := acc.fail "wire:unknown-packet" s!"client {cid}: [{showPkts rx}]"
+    -- retransmission: ids in order of first arrival
+    -- (QoS0 PUBLISH packets carry no packet id on the wire)
+    let rx0 := rx.filter (fun p => p.qos == 0)
+    let rx := rx.filter (fun p => p.qos != 0)
+    let q1 := (rx.map (·.id)).eraseDups
+    if (rx0.map (·.payload)).eraseDups.length != rx0.length then
+      acc := acc.fail "wire:qos0-resent" s!"client {cid}: [{showPkts rx0}]"
+    for i in q1 do
+      let cs := rx.filter (fun p => p.id == i)
+      match cs with
+      | p0 :: _ =>
+        if cs.any (fun p => p.payload != p0.payload || p.qos != p0.qos) then
+          acc := acc.fail "wire:resend-changed-packet" s!"client {cid}: id {i} [{showPkts cs}]"
+      | [] => pure ()
+    if ackMode == "now" then
+      for i in q1 do
+        if countId rx i > 2 then
+          acc := acc.fail "wire:resend-after-ack" s!"client {cid} (acks at once): id {i} arrived {countId rx i} times"
+    else if ackMode == "never" then
+      match q1 with
+      | [] => pure ()
+      | h :: younger =>
+        nontriv := true
+        acc := acc.tag (if younger.isEmpty then "never-ack:one-pending" else "never-ack:several-pending")
+        if window ≥ 650 && countId rx h < 2 then
+          acc := acc.fail "wire:resend-missing" s!"client {cid} (never acks): oldest id {h} arrived {countId rx h} time(s) in {window} ms"
+        for i in younger do
+          if countId rx i > 1 then
+            acc := acc.fail "wire:resend-not-oldest" s!"client {cid} (never acks): id {i} re-sent while {h} is unacknowledged"
+    else if ackMode == "late" then
+      match q1 with
+      | [] => pure ()
+      | h :: _ =>
+        nontriv := true
+        acc := acc.tag "late-ack"
+        if window ≥ 650 && countId rx h < 2 then
+          acc := acc.fail "wire:resend-missing" s!"client {cid} (acks after 1st resend): oldest id {h} arrived once"
+        for i in q1 do
+          if countId rx i > 3 then
+            acc := acc.fail "wire:resend-after-ack" s!"client {cid} (acks after 1st resend): id {i} arrived {countId rx i} times"
+        -- head of line: the second copy of a younger id comes after the second copy of every older id
+        let mut prev : Option Nat := some 0
+        for i in q1 do
+          match idxOfCopy rx i 2, prev with
+          | some k, some pk => if k < pk then acc := acc.fail "wire:resend-not-oldest" s!"client {cid}: id {i}" else prev := some k
+          | some _, none => acc := acc.fail "wire:resend-not-oldest" s!"client {cid}: id {i} re-sent before an older unacknowledged one"
+          | none, _ => prev := none
+    -- inbound PUBLISH of this client: limiter admits the first `limit`, pipeline sees those, PUBACK for QoS1 not dropped
+    let mine := inbound.toList.filter (fun j => optStr j "c" == cid)
+    let admitted := if limit == 0 then mine else mine.take limit
+    let wantPipe := admitted.map (fun j => (optStr j "topic",
+      (if optInt j "qos" == 0 then 0 else (optInt j "id").toNat), (optInt j "qos").toNat))
+    let gotPipe := ((getArr obs "pipe").toOption.getD #[]).toList.filter (fun j => optStr j "c" == cid)
+      |>.map (fun j => (optStr j "topic", (optInt j "id").toNat, (optInt j "qos").toNat))
+    if gotPipe != wantPipe then
+      acc := acc.fail "wire:pipeline-mismatch" s!"client {cid}: pipeline saw {gotPipe}, expected {wantPipe}"
+    let wantAck := (admitted.filter (fun j => optInt j "qos" == 1 && !(optStr j "topic").startsWith "drop/")).map
+      (fun j => (optInt j "id").toNat)
+    let gotAck := ((getIntList paO cid).toOption.getD []).map Int.toNat
+    if gotAck != wantAck then
+      acc := acc.fail "wire:puback-mismatch" s!"client {cid}: PUBACK ids {gotAck}, expected {wantAck}"
+    if !mine.isEmpty then acc := acc.tag "inbound-publish"
+    if mine.length > admitted.length then acc := acc.tag "inbound-limited"
+    if mine.any (fun j => (optStr j "topic").startsWith "drop/") then acc := acc.tag "inbound-pipeline-drop"
+  -- timing makes the run non-deterministic: the model side is the same set of inequalities
+  pure { agree := acc.spec, spec := acc.spec, tags := acc.tags ++ [s!"clients={clients.length}"],
+         nontrivial := nontriv, sig := acc.sig, note := acc.note }
+
+def judges : List (String × Judge) := [("inproc", inproc), ("wire", wire)]
 
 end Driver.C15
 
